@@ -1,0 +1,31 @@
+#pragma once
+// Verification hooks. Everything in this file and every use of it is compiled only with
+// -DPSEUDOENGINE2_VERIF; without the define the sources behave exactly as before.
+#ifdef PSEUDOENGINE2_VERIF
+#include <vector>
+#include <cstddef>
+
+struct Token;
+namespace PSC { class Context; }
+
+namespace PE2Verif {
+    // Execution budget (environment: PE2_VERIF_MAX_STEPS, PE2_VERIF_MAX_DEPTH, PE2_VERIF_MAX_CELLS,
+    // PE2_VERIF_MAX_STRLEN; unset = unlimited). Exceeding a limit raises an ordinary
+    // PSC::RuntimeError("Execution budget exceeded: <which>").
+    void tick(const Token &token, PSC::Context &ctx);          // one executed statement or loop iteration
+    void allocCells(unsigned long n, PSC::Context &ctx);       // array elements about to be allocated
+    void checkStringLength(std::size_t n, const Token &token, PSC::Context &ctx);
+
+    struct CallGuard {                                          // one active procedure/function call
+        CallGuard(const Token &token, PSC::Context &ctx);
+        ~CallGuard();
+    };
+
+    // PE2_VERIF_DUMP_TOKENS=1: runFile() prints the token stream instead of running the program.
+    bool dumpTokensRequested();
+    void dumpTokens(const std::vector<Token*> &tokens);
+
+    // PE2_VERIF_SRAND=<n>: deterministic seed instead of time(NULL).
+    bool seedRandom();
+}
+#endif
